@@ -374,7 +374,57 @@ def _cls_bad(c):
     return ["non-numeric"]
 
 
+def enum_file_forms(tier, shard, nshards, rng):
+    i = 0
+    for w in (3, 14, 32):
+        for value in (0, 5, (1 << w) - 1):
+            for pad in (1, 3, 10, 25):
+                i += 1
+                if i % nshards == shard:
+                    yield {"k": "zero_padded", "width": w, "value": value, "pad": pad}
+        for k in ("symlink_to_existing", "symlink_to_missing"):
+            i += 1
+            if i % nshards == shard:
+                yield {"k": k, "width": w}
+
+
+def check_file_forms(c):
+    seqcount, PacketSeqCtrl, SequenceFlags = _m()
+    devs = []
+    d = tempfile.mkdtemp(prefix="verif-c19f-")
+    try:
+        w = c["width"]
+        mod = 1 << w
+        path = Path(d) / "count.txt"
+        if c["k"] == "zero_padded":
+            # a count written with leading zeros (another tool, a fixed-width format) is that count
+            path.write_text("0" * c["pad"] + str(c["value"]) + "\n")
+            p = seqcount.FileSeqCountProvider(w, path)
+            eq(devs, "file.zero_padded.current", p.current(), c["value"])
+            eq(devs, "file.zero_padded.next", next(p), c["value"])
+            eq(devs, "file.zero_padded.then", seqcount.FileSeqCountProvider(w, path).current(), (c["value"] + 1) % mod)
+        else:
+            target = Path(d) / "real_count.txt"
+            if c["k"] == "symlink_to_existing":
+                target.write_text("5\n")
+            os.symlink(target, path)
+            p = seqcount.FileSeqCountProvider(w, path)
+            first = 5 % mod if c["k"] == "symlink_to_existing" else 0
+            eq(devs, f"file.{c['k']}.first", next(p), first)
+            eq(devs, f"file.{c['k']}.second", next(p), (first + 1) % mod)
+            eq(devs, f"file.{c['k']}.restart", next(seqcount.FileSeqCountProvider(w, path)), (first + 2) % mod)
+            true(devs, f"file.{c['k']}.target_holds_the_count", target.exists() and target.read_text().split("\n")[0] == str((first + 3) % mod), "the link's target does not hold the next count")
+        return devs
+    finally:
+        shutil.rmtree(d, ignore_errors=True)
+
+
 CLAUSES = [
+    Clause(
+        id="C19.file.forms",
+        doc="count files in other forms: counts with leading zeros (1..25 of them) are those counts; a count file reached through a symbolic link, also one whose target does not exist yet",
+        kind="enum", enum=enum_file_forms, check=check_file_forms, classify=lambda c: [c["k"]], required=["zero_padded", "symlink_to_existing", "symlink_to_missing"], shards={"quick": 2, "thorough": 2},
+    ),
     Clause(
         id="C19.memory.exhaustive",
         doc="in-memory provider: the complete history of 2^w + 3 calls for every width, via next() and get_and_increment(): value == n mod 2^w, in range, accepted by PacketSeqCtrl",
